@@ -305,6 +305,21 @@ def main():
             try:
                 if method == "__init__":
                     r = owner(*args)
+                elif module_fn and "f" in e["ins"]:
+                    # python floats select the double overload: the FLOAT overload of a module function is reached through
+                    # 1-element FloatArrays (this is what ties the vectorised float overloads to the C++ library bit for bit)
+                    wrapped = []
+                    for t, a in zip(e["ins"], args):
+                        if t == "f":
+                            fa = imath.FloatArray(1)
+                            fa[0] = a
+                            wrapped.append(fa)
+                        else:
+                            wrapped.append(a)
+                    r = getattr(imath, method)(*wrapped)
+                    if len(r) != 1:
+                        raise NotRepresentable("1-element arrays give %d elements" % len(r))
+                    r = r[0]
                 elif module_fn:
                     r = getattr(imath, method)(*args)
                 elif ftest:
